@@ -42,8 +42,8 @@ def _case(draw, tier):
     # "other" = the digest of the OTHER content of the case (a client that mixed up the checksums of two files),
     # half of the time under the store's own algorithm - then the wrong checksum is the cid of another object
     cks = draw(st.sampled_from(["none", "right", "right", "upper", "wrong", "other"]))
-    size = draw(st.sampled_from(["none", "right", "wrong"]))
-    if cks == "none" and size == "wrong":
+    size = draw(st.sampled_from(["none", "right", "wrong", "wrong-smaller", "wrong-smaller"]))
+    if cks == "none" and size.startswith("wrong"):
         size = "right"
     return {"cfg": cfg, "root_via": draw(st.sampled_from([None, None, None, None, "symlink"])),
             "contents": [draw(gen.contents(max_small=20)), draw(gen.contents(max_small=20, big=False))],
@@ -91,6 +91,9 @@ def run_case(case, ctx):
     size = None
     if case["size"] != "none" and len(data) > 0:
         size = len(data) if case["size"] == "right" else len(data) + 1
+        if case["size"] == "wrong-smaller" and len(data) > 1:
+            # (expected sizes are positive) smaller than the content: by one byte, or less than the first read buffer
+            size = len(data) - 1 if case["flip"] % 2 or len(data) < 4 else max(1, len(data) // 3)
         size_ok = case["size"] == "right"
     if size is not None and not size_ok and cks is None:
         return
@@ -143,7 +146,9 @@ def run_case(case, ctx):
             if name not in mism:
                 ctx.violation("invalid-not-rejected", f"{desc}: {who} -> {name}, expected a mismatch error",
                               {"valid": False, "who": who})
-        if cks_ok != size_ok and nameA != nameB:
+        # "both ways raise the same kind of mismatch error" - also when size AND checksum are wrong (which of the two is reported
+        # is the implementation's choice, but the same choice both ways)
+        if nameA in mism and nameB in mism and nameA != nameB:
             ctx.violation("mismatch-kinds-differ", f"{desc}: one call -> {nameA}, stepwise -> {nameB}", {"valid": False})
         for who, a in (("one call", aA), ("stepwise", aB)):
             if not pid_bound and cfg.H(pid) in a["pidrefs"]:
